@@ -461,7 +461,7 @@ fn crash_points(t: &mut Tape, c: &mut Case) {
     }
 }
 
-fn main() {
+pub fn main() {
     let args: Vec<String> = std::env::args().collect();
     if args.len() == 4 && args[1] == "--c20-worker" {
         worker_main(&args[2], &args[3]);
